@@ -7,6 +7,7 @@ package main
 // model; std-log messages of every newline shape go through the bridge (n, admission, message).
 
 import (
+	"bytes"
 	"context"
 	"encoding/json"
 	"fmt"
@@ -385,6 +386,8 @@ func runC15(r *run) {
 		}
 	}
 
+	c15EdgeRecords(r)
+
 	// ---- the std log bridge
 	msgs := []string{"", "a", "a\n", "a\n\n", "two\n\n\n", "\n", "\n\n", "in\nner", "in\nner\n", " lead", "trail \n", "tab\tx",
 		"\f", "\v\n", "\u00a0", " \u3000 \n", "\u2028", "\t\v\t", "\u0085\n"} // white space other than blank, tab, CR, LF is a message like any other
@@ -613,5 +616,118 @@ func runC15(r *run) {
 		}
 	}
 	os.Stdout, os.Stderr = realOut, realErr
+	slog.VerifResetGlobals()
+}
+
+// c15EdgeRecords: records at the edges of the handler's domain - groups nested far deeper than any application nests them,
+// and contexts that are already cancelled or past their deadline (the record was made before; it is emitted like any other).
+// Oracle only.
+func c15EdgeRecords(r *run) {
+	slog.VerifResetGlobals()
+	slog.SetFlags((slog.LstdFlags &^ slog.Lcaller) | slog.LnoInterrupt)
+	for _, depth := range []int{3, 9, 10, 11, 14, 24} {
+		for _, via := range []bool{false, true} {
+			for _, derived := range []bool{false} { // (derived handlers: see the known finding C15-derived-detached)
+				rec := &recorder{}
+				l := slog.New("c15deep").SetWriter(rec).SetErrorWriter(rec).SetLevel(slog.InfoLevel)
+				var h logslog.Handler = slog.NewSlogHandler(l, &slog.HandlerOptions{JSON: true, NoSource: true})
+				// innermost first
+				a := logslog.Group(fmt.Sprintf("g%d", depth-1), logslog.Int("n", depth-1), logslog.String("leaf", "bottom"))
+				for d := depth - 2; d >= 0; d-- {
+					var inner logslog.Attr = a
+					if d%3 == 1 {
+						inner = logslog.Any(a.Key, c15Valuer{a.Value}) // a LogValuer that resolves to the group
+					}
+					a = logslog.Group(fmt.Sprintf("g%d", d), logslog.Int("n", d), inner)
+				}
+				in := map[string]any{"attribute": fmt.Sprintf("groups g0 { n=0, g1 { n=1, … g%d { n=%d, leaf=bottom } } }, every third one given through a LogValuer", depth-1, depth-1), "through_slog_logger": via, "given_by_WithAttrs": derived}
+				hh := h
+				var callAttrs []logslog.Attr
+				if derived {
+					hh = h.WithAttrs([]logslog.Attr{a})
+				} else {
+					callAttrs = []logslog.Attr{a}
+				}
+				if via {
+					logslog.New(hh).LogAttrs(context.Background(), logslog.LevelInfo, "deep", callAttrs...)
+				} else {
+					sr := logslog.NewRecord(time.Unix(1700000000, 0), logslog.LevelInfo, "deep", 0)
+					sr.AddAttrs(callAttrs...)
+					_ = hh.Handle(context.Background(), sr)
+				}
+				w := rec.take()
+				r.seen(fmt.Sprintf("deep|%d|%v|%v", depth, via, derived))
+				if len(w) != 1 {
+					r.violate(violation{What: "a handled record was not emitted exactly once", Input: in, Actual: len(w)})
+					continue
+				}
+				var obj map[string]any
+				dec := json.NewDecoder(bytes.NewReader(w[0]))
+				dec.UseNumber()
+				if err := dec.Decode(&obj); err != nil {
+					r.violate(violation{What: "a record through the log/slog handler is not valid JSON: " + err.Error(), Input: in, Actual: string(w[0])})
+					continue
+				}
+				cur := obj
+				detail := ""
+				for d := 0; d < depth && detail == ""; d++ {
+					nx, ok := cur[fmt.Sprintf("g%d", d)].(map[string]any)
+					if !ok {
+						detail = fmt.Sprintf("group g%d (nesting depth %d) is not a nested object", d, d)
+						break
+					}
+					if fmt.Sprint(nx["n"]) != fmt.Sprint(d) {
+						detail = fmt.Sprintf("member n of group g%d is %v", d, nx["n"])
+					}
+					cur = nx
+				}
+				if detail == "" && cur["leaf"] != "bottom" {
+					detail = fmt.Sprintf("the innermost member came back as %v", cur["leaf"])
+				}
+				if detail != "" {
+					r.violate(violation{What: "a record through the log/slog handler did not preserve its nested groups: " + detail, Input: in, Actual: string(w[0])})
+				}
+			}
+		}
+	}
+	// contexts that are done already
+	cancelled, cancel := context.WithCancel(context.Background())
+	cancel()
+	expired, cancel2 := context.WithDeadline(context.Background(), time.Unix(1, 0))
+	defer cancel2()
+	type ctxKey struct{}
+	for ci, cx := range []context.Context{cancelled, expired, context.WithValue(cancelled, ctxKey{}, 1)} {
+		for _, format := range []string{"j", "l", "c"} {
+			for _, via := range []int{0, 1} {
+				rec := &recorder{}
+				l := slog.New("c15ctx").SetWriter(rec).SetErrorWriter(rec).SetLevel(slog.InfoLevel)
+				h := slog.NewSlogHandler(l, &slog.HandlerOptions{JSON: format == "j", NoColor: format == "l", NoSource: true})
+				var err error
+				switch via {
+				case 0:
+					sr := logslog.NewRecord(time.Unix(1700000000, 0), logslog.LevelWarn, "ctx-done", 0)
+					sr.AddAttrs(logslog.Int("k", 1))
+					err = h.Handle(cx, sr)
+				case 1:
+					logslog.New(h).InfoContext(cx, "ctx-done", "k", 1)
+				case 2:
+					logslog.New(h.WithAttrs([]logslog.Attr{logslog.String("svc", "a")}).WithGroup("g")).ErrorContext(cx, "ctx-done", "k", 1)
+				}
+				w := rec.take()
+				r.seen(fmt.Sprintf("ctx-done|%d|%s|%d", ci, format, via))
+				n := 0
+				for _, p := range w {
+					if bytes.Contains(p, []byte("ctx-done")) {
+						n++
+					}
+				}
+				if n != 1 || err != nil {
+					r.violate(violation{What: "a record handled with a context that is already cancelled or past its deadline was not emitted exactly once",
+						Input:    map[string]any{"context": []string{"cancelled", "deadline exceeded", "cancelled, with a value"}[ci], "format": format, "path": []string{"Handler.Handle", "Logger.InfoContext", "derived handler, Logger.ErrorContext"}[via]},
+						Expected: "one record, nil error", Actual: map[string]any{"records": n, "error": fmt.Sprint(err)}})
+				}
+			}
+		}
+	}
 	slog.VerifResetGlobals()
 }
